@@ -136,7 +136,11 @@ Definition astep (a : astate) (o : op) : astate * out :=
     end
   | OGC | ODrain => (a, OutUnit)
   | OReopen =>
-    (mka (map (fun p => (fst p, filter committed (snd p))) (a_vers a)) [] (a_nexttx a), OutUnit)
+    (* open transactions are gone; only committed values survive (key order is unobservable:
+       keys that still have a committed entry, in key order) *)
+    (mka (sort_amap (filter (fun p => match snd p with [] => false | _ => true end)
+                            (map (fun p => (fst p, filter committed (snd p))) (a_vers a))))
+         [] (a_nexttx a), OutUnit)
   end.
 
 Fixpoint arun_from (a : astate) (ops : list op) : list out :=
